@@ -318,10 +318,12 @@ var unknownNames = []kmip.AttributeName{"Unknown Attribute", "", "unique identif
 
 // attrName draws an attribute name: queued, registered (3/4), custom or unknown.
 func (g *gen) attrName() kmip.AttributeName {
-	if len(g.attrs) > 0 {
+	for len(g.attrs) > 0 {
 		n := g.attrs[0]
 		g.attrs = g.attrs[1:]
-		return n
+		if !g.o.TextSafe || textSafe(string(n)) {
+			return n
+		}
 	}
 	return g.randomAttrName()
 }
@@ -330,6 +332,17 @@ func (g *gen) randomAttrName() kmip.AttributeName {
 	if g.o.AttrDefault != "" {
 		return g.o.AttrDefault
 	}
+	if g.o.TextSafe {
+		for {
+			if n := g.drawAttrName(); textSafe(string(n)) {
+				return n
+			}
+		}
+	}
+	return g.drawAttrName()
+}
+
+func (g *gen) drawAttrName() kmip.AttributeName {
 	switch k := g.r.Intn(8); {
 	case k < 6:
 		return kmip.AllAttributeNames[g.r.Intn(len(kmip.AllAttributeNames))]
